@@ -1,9 +1,43 @@
-"""C05 — main module (parts: c05_*.py are merged automatically)."""
+"""C05 — outputs may alias inputs; input-only operands are never modified."""
+import apigen
+from genlib import *
 LEVEL = "proof"
 LEAN_MODULES = []
 THEOREMS = []
-TRUSTED = []
-ASSUMPTIONS = []
-LEVEL_TEXT = 'Alias-independence: Lean theorems for the id-based object models (result equals the distinct-variable call for every permitted alias pattern) plus a differential aliased-vs-distinct run over every public mpz/mpq/mpf function generated from mpir.h prototypes, with values chosen to force reallocation of the aliased destination.'
-LEVEL_NOTE = 'Functions without an object-level model are covered by the differential run only.'
-PLACEHOLDER = True
+TRUSTED = ["the call table is generated from mpir.h of the tree under test (tools/gen_api.py); functions with raw-memory, stream or string parameters are outside the generic table (covered under C06/C17/C18)"]
+ASSUMPTIONS = ["for functions without an object-level Lean model the alias property is decided by the differential aliased-vs-distinct run only"]
+RULE = ("every function of the generated API table x every output parameter x every non-empty subset of same-kind input parameters made the same variable; "
+        "values honour documented preconditions; destinations pre-shrunk (exact-size allocation); distinct = distinct op lines")
+LEVEL_TEXT = ("Alias-independence: Lean theorems for the id-based object models (mpq arithmetic, mpz add/sub/mul families: result equals the distinct-variable call for "
+              "every permitted alias pattern) plus a differential aliased-vs-distinct run over every public mpz/mpq/mpf function generated from mpir.h prototypes, "
+              "with values chosen to force reallocation of the aliased destination; inputs that are not outputs must be unchanged.")
+LEVEL_NOTE = "Functions without an object-level model are covered by the differential run only (bounded exploration); two output parameters are never aliased to each other (the manual excludes it)."
+
+def patterns(sig):
+    out = []
+    for P, c in enumerate(sig):
+        if c not in "ZQF": continue
+        srcs = [i for i, d in enumerate(sig) if d == c.lower()]
+        # every non-empty subset of the same-kind inputs
+        for m in range(1, 1 << len(srcs)):
+            mask = 0
+            for j, i in enumerate(srcs):
+                if m >> j & 1: mask |= 1 << i
+            out.append((P, mask))
+    return out
+
+def gen_ops(rng, tier, ctx=None):
+    import vlib
+    build = ctx.build if ctx else vlib.REPO
+    table, skipped = apigen.table(build)
+    reps = 120 if tier == "quick" else 1500
+    yield "api_count"
+    for name, sig, ret in table:
+        pats = patterns(sig)
+        for (P, mask) in pats:
+            for _ in range(reps):
+                toks = apigen.gen_args(rng, name, sig, P, mask)
+                yield "api_alias %s %x %x %s" % (sbytes(name), P, mask, " ".join(t for ts in toks for t in ts))
+
+def nontrivial(line):
+    return line if line.startswith("api_alias") else None
